@@ -12,6 +12,7 @@ package main
 import (
 	"context"
 	"fmt"
+	templruntime "github.com/a-h/templ/runtime"
 	"io"
 	"log/slog"
 	"os"
@@ -198,9 +199,9 @@ func sameBytes() (renders int) {
 type params struct{ elem, attr, text, place, order, ws int }
 
 var (
-	elems  = []string{"div", "a", "span", "form"}
-	attrs  = []string{"title", "class", "style", "href", "onclick", "", "data-x", "action", "hx-on:click"}
-	texts  = []string{"hello", "bye", ""}
+	elems = []string{"div", "a", "span", "form"}
+	attrs = []string{"title", "class", "style", "href", "onclick", "", "data-x", "action", "hx-on:click"}
+	texts = []string{"hello", "bye", ""}
 	// textcall and gocall hold the same expression text, once rendered and once as a raw Go statement: an edit
 	// between them changes neither the literals nor any expression string, only how the expression is used
 	places = []string{"text", "attr2", "script", "none", "root", "textcall", "gocall", "comment"}
@@ -537,24 +538,46 @@ func confirm(cands []candidate) {
 		todo = rest
 		h := generatecmd.NewFSEventHandler(quiet, bt.Dir, true, nil, false, true, func(string, []byte) error { return nil }, false)
 		var devJobs []rt.Job
-		for _, c := range round {
+		// the running program: first it renders with the text of the version it was compiled from, then the text
+		// file changes under it (the edit), then it renders again. idx[i] = position of the second render.
+		idx := make([]int, len(round))
+		firstIdx := make([]int, len(round))
+		for i, c := range round {
 			k := ver[c.old]
 			oldPath := filepath.Join(bt.Dir, fmt.Sprintf("v%d.templ", k))
-			// the handler sees the CURRENT version under the file name of the compiled one and writes its text file
-			writeAt(oldPath, srcOf(c.cur, fmt.Sprintf("V%d", k)))
-			if _, err := h.HandleEvent(context.Background(), fsnotify.Event{Name: oldPath, Op: fsnotify.Write}); err != nil {
-				vlib.Fatal("confirm handler: %v", err)
+			txtPath := templruntime.GetDevModeTextFileName(oldPath)
+			textOf := func(p params) string {
+				// the handler sees the version under the file name of the compiled one and writes its text file
+				writeAt(oldPath, srcOf(p, fmt.Sprintf("V%d", k)))
+				if _, err := h.HandleEvent(context.Background(), fsnotify.Event{Name: oldPath, Op: fsnotify.Write}); err != nil {
+					vlib.Fatal("confirm handler: %v", err)
+				}
+				b, err := os.ReadFile(txtPath)
+				if err != nil {
+					vlib.Fatal("text file of %s: %v", oldPath, err)
+				}
+				return string(b)
 			}
+			oldTxt := textOf(c.old)
+			curTxt := textOf(c.cur)
+			devJobs = append(devJobs, rt.Job{WriteFile: txtPath, Content: oldTxt, ModUnix: time.Date(2000, 1, 2, 0, 0, 0, 0, time.UTC).Unix(), FailAt: -1})
+			firstIdx[i] = len(devJobs)
+			devJobs = append(devJobs, rt.Job{T: fmt.Sprintf("V%d", k), V: 1, FailAt: -1})
+			devJobs = append(devJobs, rt.Job{WriteFile: txtPath, Content: curTxt, ModUnix: time.Date(2000, 1, 3, 0, 0, 0, 0, time.UTC).Unix(), FailAt: -1})
+			idx[i] = len(devJobs)
 			devJobs = append(devJobs, rt.Job{T: fmt.Sprintf("V%d", k), V: 1, FailAt: -1})
 		}
-		ents, _ := os.ReadDir(devRoot)
-		for _, e := range ents {
-			old := time.Date(2000, 1, 2, 0, 0, 0, 0, time.UTC)
-			os.Chtimes(filepath.Join(devRoot, e.Name()), old, old)
-		}
-		dev, err := bt.Run(devJobs, "TEMPL_DEV_MODE=true", "TEMPL_DEV_MODE_ROOT="+devRoot)
+		devAll, err := bt.Run(devJobs, "TEMPL_DEV_MODE=true", "TEMPL_DEV_MODE_ROOT="+devRoot)
 		if err != nil {
 			vlib.Fatal("%v", err)
+		}
+		dev := make([]rt.Result, len(round))
+		for i, c := range round {
+			dev[i] = devAll[idx[i]]
+			// before the edit the program must render its own version
+			if own, before := fresh[fmt.Sprintf("V%d", ver[c.old])], devAll[firstIdx[i]]; before.HTML != own.HTML || before.Err != own.Err {
+				run.Violation("dev-mode-bytes-differ", fmt.Sprintf("the compiled program reading its own text file renders %s (err %q), freshly generated code renders %s\n%s", vlib.Quote(before.HTML), before.Err, vlib.Quote(own.HTML), c.old.src()), map[string]any{"template": c.old.src(), "dev": before.HTML, "normal": own.HTML})
+			}
 		}
 		for i, c := range round {
 			want := fresh[fmt.Sprintf("V%d", ver[c.cur])]
